@@ -20,7 +20,7 @@ ASSUMPTIONS = ['labels within +-2^29', 'every trajectory has at least one frame'
 BATCH = 6000
 
 
-def gen(rng, tier):
+def _gen0(rng, tier):
     maxlen, taus = (6, (1, 2, 3, 4)) if tier == 'quick' else (10, (1, 2, 3, 4, 5))
     for t in G.all_trajs([0, 1, 2], maxlen):
         for tau in taus:
@@ -48,6 +48,10 @@ def gen(rng, tier):
         trajs = [G.traj(rng, labs, rng.randint(8, 40), sticky=0.8) for _ in range(rng.choice([1, 2]))]
         yield {'trajs': trajs, 'lag': rng.choice([2, 3, 5]), 'iter': rng.random() < 0.5, 'form': 'obj', 'alpha': akind,
                'pre': [[rng.choice([1, 2, 3, 5, 7]), rng.random() < 0.5] for _ in range(rng.randint(1, 3))]}
+
+
+def gen(rng, tier):
+    return G.with_layouts(rng, _gen0(rng, tier), p_alt=0.1)
 
 
 def corpus():
@@ -84,7 +88,7 @@ def shrink(case):
 def impl(case):
     import msmhelper as mh
     from implutil import build, tolists
-    data = build(case['form'], case['trajs'], case.get('dtypes'))
+    data = build(case['form'], case['trajs'], case.get('dtypes'), case.get('layout'))
     for tau, it in case.get('pre', []):       # earlier calls on the SAME object must not change later results
         try:
             mh.md.dynamical_coring(data, tau, iterative=it)
@@ -170,6 +174,6 @@ def nontrivial(case, ibc):
 
 def describe(case, ibc):
     r = next(iter(ibc.values()))
-    return ['form:' + case['form'], 'alphabet:' + case['alpha'], 'ntraj:%d' % len(case['trajs']),
+    return ['form:' + case['form'] + ('/' + case['layout'] if case.get('layout') else ''), 'alphabet:' + case['alpha'], 'ntraj:%d' % len(case['trajs']),
             'tau:%d' % case['lag'], 'iterative:%s' % case['iter'],
             'outcome:' + ('err-' + r['err'] if 'err' in r else ('changed' if r['ok'] != case['trajs'] else 'unchanged'))]
